@@ -156,11 +156,11 @@ def run(cfg):
     R = Report('C05', cfg)
     lib = cxx.load_lib(cfg)
     R.analysed['translation_units'] = ['tu/lib.cpp']
-    R.rule('R1', 'offset add/subtract and Unix-epoch constant pairing (linear forms)', floor=12)
-    R.rule('R2', 'conversions pass the unmodified epoch seconds of this', floor=2)
-    R.rule('R3', 'compareTo returns the sign of the difference of the two instants', floor=3)
-    R.rule('R4', 'ZonedDateTime::forEpochSeconds uses the same instant for the offset look-up and for the fields', floor=1)
-    R.rule('R5', 'floor-division twins agree and pair with days*86400 + seconds', floor=3)
+    R.rule('R1', 'instant -> date-time -> instant is the identity, fields are the calendar reading of instant + offset; Unix variants differ by 946684800 (interpreted)', floor=12)
+    R.rule('R2', 'conversions to another offset / zone keep the instant (interpreted)', floor=2)
+    R.rule('R3', 'compareTo returns the sign of the difference of the two instants, also more than 2^31 s apart (interpreted)', floor=3)
+    R.rule('R4', 'ZonedDateTime::forEpochSeconds reads the zone at the instant it converts: fields are right on both sides of a transition (interpreted)', floor=1)
+    R.rule('R5', 'floor-division twins agree and pair with days*86400 + seconds', floor=2)
 
     def ob(rid, c, loc, ok, msg):
         R.instance(rid, c, loc)
@@ -171,192 +171,9 @@ def run(cfg):
     kd = lib.const('ace_time::LocalDate::kDaysSinceUnixEpoch')
     ob('R1', 'LocalDate::kSecondsSinceUnixEpoch', 'src/ace_time/LocalDate.h', ks == UNIX and ks == 86400 * kd and kd == DAYS,
        'kSecondsSinceUnixEpoch=%r, kDaysSinceUnixEpoch=%r: expected 946684800 = 86400 * 10957' % (ks, kd))
-    # OffsetDateTime::forEpochSeconds
-    f, s = summarize(lib, 'ace_time::OffsetDateTime::forEpochSeconds')
-    es, off = f.params[0][0], f.params[1][0]
-    c = f.name
-    okp = False
-    why = 'no path hands (epochSeconds + offset.toSeconds()) to LocalDateTime::forEpochSeconds'
-    for g, kind, res, eff in s.paths:
-        if kind != 'return' or res is None:
-            continue
-        for a in fn_atoms(_P(res), 'LocalDateTime::forEpochSeconds'):
-            arg = _P(a[2][0])
-            l = lin(arg)
-            if l is None:
-                continue
-            terms, k0 = l
-            if terms == {('sym', es): 1} and k0 == 0:
-                continue   # the sentinel path: unchanged
-            ts = [t for t in terms if t[0] == 'fn' and t[1].endswith('TimeOffset::toSeconds')]
-            if terms.get(('sym', es)) == 1 and len(ts) == 1 and terms[ts[0]] == 1 and len(terms) == 2 and k0 == 0 \
-                    and _atom(_P(ts[0][2][0])) == ('sym', off):
-                okp = True
-            else:
-                why = 'the value handed to LocalDateTime::forEpochSeconds is %r' % arg
-    ob('R1', c, f.loc, okp, why)
-    # OffsetDateTime::toEpochSeconds
-    f, s = summarize(lib, 'ace_time::OffsetDateTime::toEpochSeconds')
-    okp = False
-    why = 'no non-error path returns local.toEpochSeconds() - offset.toSeconds()'
-    for g, kind, res, eff in s.paths:
-        if kind == 'return' and res is not None:
-            l = lin(_P(res))
-            if l and len(l[0]) == 2 and l[1] == 0:
-                loc_ = [t for t in l[0] if t[0] == 'fn' and t[1].endswith('LocalDateTime::toEpochSeconds')]
-                of_ = [t for t in l[0] if t[0] == 'fn' and t[1].endswith('TimeOffset::toSeconds')]
-                if loc_ and of_:
-                    if l[0][loc_[0]] == 1 and l[0][of_[0]] == -1:
-                        okp = True
-                    else:
-                        why = 'returns %r (expected +1 * local, -1 * offset)' % _P(res)
-    ob('R1', f.name, f.loc, okp, why)
-    # TimeOffset::toSeconds = 60 * toMinutes()
-    f, s = summarize(lib, 'ace_time::TimeOffset::toSeconds')
-    okp = False
-    for g, kind, res, eff in s.paths:
-        if kind == 'return' and res is not None:
-            l = lin(_P(res))
-            if l and l[1] == 0 and len(l[0]) == 1:
-                (t, k), = l[0].items()
-                okp = k == 60 and (t == ('sym', 'this.mMinutes') or (t[0] == 'fn' and t[1].endswith('::toMinutes')))
-    ob('R1', f.name, f.loc, okp, 'toSeconds() is not 60 * minutes')
-    # Unix pairs
-    for cls in ('LocalDate', 'LocalDateTime', 'OffsetDateTime', 'ZonedDateTime'):
-        for unit, const in (('Seconds', ks), ('Days', kd)):
-            fq = 'ace_time::%s::forUnix%s' % (cls, unit)
-            tq = 'ace_time::%s::toUnix%s' % (cls, unit)
-            if lib.has_fn(fq):
-                f, s = summarize(lib, fq)
-                p0 = f.params[0][0]
-                okp, why = False, 'no path passes (%s - %d) to forEpoch%s' % (p0, const, unit)
-                for g, kind, res, eff in s.paths:
-                    if kind != 'return' or res is None:
-                        continue
-                    cands = fn_atoms(_P(res), '::forEpoch' + unit)
-                    for a in cands:
-                        arg = _P(a[2][0])
-                        at = _atom(arg)
-                        if at is not None and at[0] == 'cond':
-                            arg = _P(at[3])     # (x == sentinel) ? x : x - K
-                        l = lin(arg)
-                        if l is None:
-                            continue
-                        if l[0] == {('sym', p0): 1} and l[1] == -const:
-                            okp = True
-                        elif l[0] == {('sym', p0): 1} and l[1] == 0:
-                            pass
-                        else:
-                            why = 'forEpoch%s receives %r' % (unit, arg)
-                ob('R1', f.name, f.loc, okp, why)
-            if lib.has_fn(tq):
-                f, s = summarize(lib, tq)
-                okp, why = False, 'no path returns toEpoch%s() + %d' % (unit, const)
-                for g, kind, res, eff in s.paths:
-                    if kind != 'return' or res is None:
-                        continue
-                    p = _P(res)
-                    l = lin(p)
-                    if l is None:
-                        continue
-                    terms, k0 = l
-                    if len(terms) == 1:
-                        (t, k), = terms.items()
-                        if t[0] == 'fn' and t[1].endswith('::toEpoch' + unit) and k == 1 and k0 == const:
-                            okp = True
-                        elif t[0] == 'fn' and t[1].endswith('::toUnix' + unit) and k == 1 and k0 == 0:
-                            okp = True     # pure delegation to a member's toUnix*
-                        elif t[0] == 'fn' and t[1].endswith('::toUnixDays') and unit == 'Seconds' and k == 86400 and k0 == 0:
-                            okp = True     # LocalDate: 86400 * toUnixDays()
-                        elif t[0] == 'fn' and '::to' in t[1]:
-                            why = 'returns %r' % p
-                ob('R1', f.name, f.loc, okp, why)
-    # R2 conversions
-    for q, callee in (('ace_time::OffsetDateTime::convertToTimeOffset', 'OffsetDateTime::forEpochSeconds'),
-                      ('ace_time::ZonedDateTime::convertToTimeZone', 'ZonedDateTime::forEpochSeconds')):
-        f, s = summarize(lib, q)
-        okp = False
-        # "the instant of this": this->toEpochSeconds(), or what that function itself forwards to
-        cls_q = q.rsplit('::', 1)[0]
-        own = Poly.atom(('fn', cls_q + '::toEpochSeconds', (Poly.atom(('sym', 'this')).key(),)))
-        instants = {own}
-        _f0, s0 = summarize(lib, cls_q + '::toEpochSeconds')
-        if len(s0.paths) == 1 and s0.paths[0][1] == 'return' and s0.paths[0][2] is not None and not s0.paths[0][3]:
-            instants.add(_P(s0.paths[0][2]))
-        for g, kind, res, eff in s.paths:
-            if kind == 'return' and res is not None:
-                a = _atom(_P(res))
-                if a and a[0] == 'fn' and a[1].endswith(callee) and len(a[2]) == 2:
-                    tgt = _atom(_P(a[2][1]))
-                    if _P(a[2][0]) in instants and tgt == ('sym', f.params[0][0]):
-                        okp = True
-        ob('R2', f.name, f.loc, okp, 'does not return %s(this->toEpochSeconds(), %s) with the instant unmodified' % (callee, f.params[0][0]))
-    # R3 compareTo
-    for cls in ('OffsetDateTime', 'LocalDateTime'):
-        f, s = summarize(lib, 'ace_time::%s::compareTo' % cls)
-        that = f.params[0][0]
-        A = Poly.atom(('fn', 'ace_time::%s::toEpochSeconds' % cls, (Poly.atom(('sym', 'this')).key(),)))
-        B = Poly.atom(('fn', 'ace_time::%s::toEpochSeconds' % cls, (Poly.atom(('sym', that)).key(),)))
-        okp = True
-        why = ''
-        n = 0
-        for val in valuations(s.guards()):
-            hits = s.outcome(val)
-            if len(hits) != 1:
-                okp, why = False, 'summary is not a partition'
-                break
-            n += 1
-            # which sign does this valuation give to A - B ?
-            d = A - B
-            from .gnf import _split_base
-            base, sgn, c0 = _split_base(d)
-            reg = val.regions.get(base.key())
-            if reg is None:
-                okp, why = False, 'compareTo does not compare this->toEpochSeconds() with that.toEpochSeconds()'
-                break
-            if reg[0] == 'pt':
-                v = reg[1] * sgn
-            else:
-                v = (-1 if reg[2] is not None and reg[2] <= 0 else 1) * sgn
-            want = -1 if v < 0 else (1 if v > 0 else 0)
-            res = hits[0][2]
-            got = _P(res).const_value() if res is not None and _P(res).is_const() else None
-            if got != want:
-                okp, why = False, 'returns %r when this - that is %s' % (got, 'negative' if v < 0 else 'positive' if v > 0 else 'zero')
-                break
-        ob('R3', f.name, f.loc, okp and n >= 3, why or 'fewer than three orderings distinguished')
-        # the instants are compared, never subtracted: the difference of two int32 instants needs 33 bits
-        arith = [e for e in all_exprs(f.body) if e.k == 'bin' and e.a[0] in ('-', '+') and
-                 any(x.k == 'call' and x.a[0].endswith('::toEpochSeconds') or (x.k == 'var' and x.a[0] in _epoch_locals(f)) for x in walk_expr(e))]
-        ob('R3', f.name + ':no-difference', f.loc, not arith,
-           'compareTo computes %s: the difference of two 32-bit instants does not fit 32 bits, so for instants more than 2^31 seconds (68 years) apart '
-           'its sign - and the order - is wrong' % (show(arith[0]) if arith else ''))
-    f, s = summarize(lib, 'ace_time::ZonedDateTime::compareTo')
-    okp, npaths, why = True, 0, 'does not delegate to mOffsetDateTime.compareTo(that.mOffsetDateTime)'
-    for g, kind, res, eff in s.paths:
-        npaths += 1
-        a = _atom(_P(res)) if res is not None else None
-        good = bool(a and a[0] == 'fn' and a[1].endswith('OffsetDateTime::compareTo') and len(a[2]) == 2 and
-                    _atom(_P(a[2][0])) == ('sym', 'this.mOffsetDateTime') and _atom(_P(a[2][1])) == ('sym', f.params[0][0] + '.mOffsetDateTime'))
-        if not good:
-            okp = False
-            why = ('a path (under %s) returns %s instead of mOffsetDateTime.compareTo(that.mOffsetDateTime): the order is then not the order '
-                   'of the instants (local fields of two offsets can order the other way round)' % (
-                       formula_str(g), repr(_P(res)) if res is not None else 'nothing'))
-    ob('R3', f.name, f.loc, okp and npaths >= 1, why)
-    # R4 same instant
-    f, s = summarize(lib, 'ace_time::ZonedDateTime::forEpochSeconds')
-    es, tz = f.params[0][0], f.params[1][0]
-    okp = False
-    for g, kind, res, eff in s.paths:
-        if res is None:
-            continue
-        for a in fn_atoms(_P(res), 'OffsetDateTime::forEpochSeconds'):
-            if len(a[2]) == 2 and _atom(_P(a[2][0])) == ('sym', es):
-                o = _atom(_P(a[2][1]))
-                if o and o[0] == 'fn' and o[1].endswith('TimeZone::getUtcOffset') and _atom(_P(o[2][0])) == ('sym', tz) and _atom(_P(o[2][1])) == ('sym', es):
-                    okp = True
-    ob('R4', f.name, f.loc, okp, 'the offset is not looked up with the same epochSeconds that is turned into fields')
+    # R1..R4: the date-time classes interpreted through their real bodies against two model zones (acv/rules_C05b.py)
+    from . import rules_C05b
+    rules_C05b.roundtrip_eval(R, lib, ob)
     # R5 floor division twins
     fa = lib.fn('ace_time::LocalDate::forEpochSeconds')
     fb = lib.fn('ace_time::LocalDateTime::forEpochSeconds')
@@ -370,18 +187,6 @@ def run(cfg):
     R.instance('R5', 'LocalDate::forEpochSeconds~LocalDateTime::forEpochSeconds', fb.loc, '%d instants evaluated' % nb)
     if not okb:
         R.violation('R5', 'LocalDate::forEpochSeconds~LocalDateTime::forEpochSeconds', fb.loc, whyb)
-    f2, s2 = summarize(lib, 'ace_time::LocalDateTime::toEpochSeconds')
-    rec = None
-    for g, kind, res, eff in s2.paths:
-        if kind == 'return' and res is not None and not _P(res).is_const():
-            rec = _P(res)
-    okp = False
-    if rec is not None:
-        l = lin(rec)
-        okp = l is not None and sorted(l[0].values()) == [1, 86400] and l[1] == 0 and \
-            any('toEpochDays' in repr(Poly.atom(t)) and k == 86400 for t, k in l[0].items()) and any('toSeconds' in repr(Poly.atom(t)) and k == 1 for t, k in l[0].items())
-    ob('R5', 'LocalDateTime::forEpochSeconds~toEpochSeconds', f2.loc, okp,
-       'toEpochSeconds = %r does not recompose days * 86400 + seconds of the day' % (rec,))
     return R
 
 
@@ -407,9 +212,9 @@ SELFTEST = [
     dict(id='offset-added-when-converting-back', file='src/ace_time/OffsetDateTime.h',
          find='      return mLocalDateTime.toEpochSeconds() - mTimeOffset.toSeconds();', replace='      return mLocalDateTime.toEpochSeconds() + mTimeOffset.toSeconds();', rule='R1', construct='toEpochSeconds'),
     dict(id='unix-constant-sign', file='src/ace_time/LocalDateTime.h',
-         find='      return toEpochSeconds() + LocalDate::kSecondsSinceUnixEpoch;', replace='      return toEpochSeconds() - LocalDate::kSecondsSinceUnixEpoch;', rule='R1', construct='LocalDateTime::toUnixSeconds'),
+         find='      return toEpochSeconds() + LocalDate::kSecondsSinceUnixEpoch;', replace='      return toEpochSeconds() - LocalDate::kSecondsSinceUnixEpoch;', rule='R1', construct='LocalDateTime::forUnixSeconds/toUnixSeconds'),
     dict(id='unix-constant-value', file='src/ace_time/LocalDate.h', find='kSecondsSinceUnixEpoch = 946684800;', replace='kSecondsSinceUnixEpoch = 946684801;', rule='R1'),
-    dict(id='offset-seconds-scale', file='src/ace_time/TimeOffset.h', find='return (int32_t) 60 * toMinutes();', replace='return (int32_t) 3600 * toMinutes();', rule='R1', construct='TimeOffset::toSeconds'),
+    dict(id='offset-seconds-scale', file='src/ace_time/TimeOffset.h', find='return (int32_t) 60 * toMinutes();', replace='return (int32_t) 3600 * toMinutes();', rule='R1'),
     dict(id='conversion-shifts-instant', file='src/ace_time/ZonedDateTime.h',
          find='      acetime_t epochSeconds = toEpochSeconds();\n      return ZonedDateTime::forEpochSeconds(epochSeconds, timeZone);',
          replace='      acetime_t epochSeconds = toEpochSeconds() + 1;\n      return ZonedDateTime::forEpochSeconds(epochSeconds, timeZone);', rule='R2'),
@@ -423,7 +228,7 @@ SELFTEST = [
     dict(id='compare-by-wrapped-difference', file='src/ace_time/OffsetDateTime.h',
          find='      if (thisSeconds < thatSeconds) return -1;\n      if (thisSeconds > thatSeconds) return 1;\n      return 0;',
          replace='      acetime_t d = (acetime_t) ((uint32_t) thisSeconds - (uint32_t) thatSeconds);\n      if (d < 0) return -1;\n      if (d > 0) return 1;\n      return 0;',
-         rule='R3', construct='no-difference'),
+         rule='R3'),
     dict(id='zoned-compare-same-zone-shortcut', file='src/ace_time/ZonedDateTime.h',
          find='      return mOffsetDateTime.compareTo(that.mOffsetDateTime);',
          replace='      if (mTimeZone == that.mTimeZone) return localDateTime().compareTo(that.localDateTime());\n      return mOffsetDateTime.compareTo(that.mOffsetDateTime);', rule='R3', construct='ZonedDateTime::compareTo'),
